@@ -14,7 +14,17 @@ let () =
          String.concat "," (List.map string_of_int ([a; b; c; d] @ List.sort compare caps))
        | _ -> "?short")
     | _ -> "?args");
-  (* does the model predict a goroutine that can stay blocked after cancellation? *)
+  (* does the model predict a goroutine that can stay blocked: after cancellation (wf), or
+     because a fault does not reach ctx.cancel (faults_cancel)? *)
   register "proc_can_leak" (function [n] ->
-      str_of_bool (not (wf (net_of n)) || wf_violations (net_of n) <> [])
+      str_of_bool (not (wf (net_of n)) || wf_violations (net_of n) <> [] || not (faults_cancel (net_of n)))
+    | _ -> "?args");
+  (* every fault reaches ctx.cancel (boolean), the number of goroutines with a deferred
+     ctx.cancel(nil), the number of error paths that may wait before they cancel *)
+  register "proc_faults" (function [n] ->
+      let nt = net_of n in
+      (match List.map int_of_nat (fault_counts nt) with
+       | [_; _; dc] ->
+         Printf.sprintf "%s,%d,%d" (if faults_cancel nt then "1" else "0") dc (List.length (fault_waits nt))
+       | _ -> "?short")
     | _ -> "?args")
